@@ -569,7 +569,7 @@ func (s *sys) teardown() {
 func pick(r *rand.Rand, xs []int) int { return xs[r.IntN(len(xs))] }
 
 func (s *sys) gen(r *rand.Rand, maxG int) []uint64 {
-	var gate0, inres, store, entered, relparked, relrefs, firep, conslive, incb []int
+	var gate0, inres, store, entered, relparked, relrefs, firep, conslive, incb, accwait []int
 	na := len(s.parkedAsyncs())
 	room := len(s.gors) < maxG
 	for i, a := range s.gors {
@@ -607,11 +607,33 @@ func (s *sys) gen(r *rand.Rand, maxG int) []uint64 {
 		}
 		if d.kind == 2 && ca.InUser() == 2 {
 			incb = append(incb, i)
+		} else if d.kind == 2 && !d.ret && !d.canc && !ca.Parked() {
+			accwait = append(accwait, i)
+		}
+	}
+	// an Access call is waiting for a value: let the resolution make progress
+	if len(accwait) > 0 && r.IntN(3) != 0 {
+		for tries := 0; tries < 20; tries++ {
+			x := r.IntN(100)
+			switch {
+			case x < 10 && room && len(gate0)+len(inres)+len(store) == 0:
+				return []uint64{1, uint64(1 + r.IntN(2))}
+			case x < 40 && len(gate0) > 0:
+				return []uint64{7, uint64(pick(r, gate0)), 0}
+			case x < 70 && len(inres) > 0:
+				e := uint64(0)
+				if r.IntN(8) == 0 {
+					e = 2 + uint64(r.IntN(2))
+				}
+				return []uint64{8, uint64(pick(r, inres)), uint64(b2u(r.IntN(4) > 0)), e}
+			case x < 100 && len(store) > 0:
+				return []uint64{9, uint64(pick(r, store))}
+			}
 		}
 	}
 	cbres := func() uint64 { return []uint64{0, 0, 1, 1, 10, 11}[r.IntN(6)] }
 	// while an Access callback runs: invalidate its value, let the replacement be resolved, return before and after
-	if len(incb) > 0 && r.IntN(2) == 0 {
+	if len(incb) > 0 && r.IntN(4) != 0 {
 		newest := len(s.gors) - 1
 		for tries := 0; tries < 40; tries++ {
 			x := r.IntN(100)
@@ -677,7 +699,7 @@ func (s *sys) gen(r *rand.Rand, maxG int) []uint64 {
 			return []uint64{10, uint64(r.IntN(2))}
 		case x < 93 && len(incb) > 0:
 			return []uint64{13, uint64(pick(r, incb)), cbres()}
-		case x < 94 && len(conslive) > 0:
+		case x < 94 && len(conslive) > 0 && (!s.wantAcc || r.IntN(4) == 0):
 			return []uint64{11, uint64(pick(r, conslive))}
 		case x < 100 && len(firep) > 0:
 			return []uint64{12, uint64(pick(r, firep))}
